@@ -102,7 +102,24 @@ class HandlerBoom(Exception):
     pass
 
 
+class _Factory:
+    """Callable producing the exception instance: `name` or `name:noargs` (an instance with EMPTY .args, as produced
+    by a bare `raise ValueError`, a failed assert without message, queue.Empty from get_nowait(), StopIteration)."""
+
+    def __init__(self, cls, noargs):
+        self.cls, self.noargs = cls, noargs
+
+    def __call__(self, msg=""):
+        return self.cls() if self.noargs else self.cls(msg)
+
+
 def _exc_class(name):
+    if name.endswith(":noargs"):
+        return _Factory(_exc_class_plain(name[:-7]), True)
+    return _exc_class_plain(name)
+
+
+def _exc_class_plain(name):
     import socket
     return {"RuntimeError": RuntimeError, "ValueError": ValueError, "KeyError": KeyError, "OSError": OSError,
             "TimeoutError": TimeoutError, "ConnectionResetError": ConnectionResetError, "AttributeError": AttributeError,
@@ -112,7 +129,8 @@ def _exc_class(name):
 
 
 EXC_NAMES = ["RuntimeError", "ValueError", "KeyError", "OSError", "TimeoutError", "ConnectionResetError", "AttributeError",
-             "StopIteration", "NotImplementedError", "queue.Empty", "AssertionError", "TypeError", "HandlerBoom"]
+             "StopIteration", "NotImplementedError", "queue.Empty", "AssertionError", "TypeError", "HandlerBoom",
+             "ValueError:noargs", "AssertionError:noargs", "queue.Empty:noargs", "StopIteration:noargs", "RuntimeError:noargs"]
 KINDS_NAMED = ["function", "method", "lambda"]          # callables with a __name__
 KINDS_UNNAMED = ["partial", "object"]                    # legitimate callables without a __name__
 
